@@ -363,6 +363,16 @@ pub fn seq_text(ops: &[Op]) -> String {
 // Driver
 // ---------------------------------------------------------------------------------------------
 
+/// `RawCache::resize` runs its per-shard jobs through foyer-memory's `verif` seam: inline on the calling
+/// thread for the single-threaded engines (one legal schedule of the helper threads, which are joined before
+/// `resize` returns; thread creation costs ~0.5 ms per shard here and would otherwise dominate).
+pub fn install_inline_spawner() {
+    foyer_memory::verif::set_spawner(Some(std::sync::Arc::new(|job: foyer_memory::verif::Job| {
+        job();
+        Box::new(|| {}) as foyer_memory::verif::Joiner
+    })));
+}
+
 pub struct Driver {
     pub cfg: MemCfg,
     pub cache: Option<MC>,
